@@ -8,6 +8,7 @@ import (
 	"math"
 	"math/big"
 	"math/bits"
+	"os"
 	"sort"
 	"strings"
 )
@@ -730,6 +731,9 @@ func mkEq(a, b *Term) *Term {
 	return ts.intern(&Term{op: OEq, kind: 'b', a: []*Term{a, b}})
 }
 
+// noWrapFold switches the wrap-test rewrite off (GOSMT_NOWRAPFOLD=1), for differential debugging of the simplifier
+var noWrapFold = os.Getenv("GOSMT_NOWRAPFOLD") != ""
+
 // addNoWrap / subNoWrap: the signed intervals of the operands exclude overflow of x+y / x-y at width w
 func addNoWrap(x, y *Term, w int) bool {
 	l, o1 := addOvf(x.lo, y.lo)
@@ -794,7 +798,7 @@ func mkCmp(op Op, a, b *Term) *Term {
 	// the wrap test of saturating arithmetic: when the range analysis shows that x+y (x-y) cannot overflow,
 	// (x+y) < x is y < 0 and (x-y) < x is 0 < y. This is what lets the overflow branches of addVal/subVal fold away
 	// for quantities far from the int64 limits instead of reaching the solver as mod-2^64 arithmetic.
-	if op == OSlt || op == OSle {
+	if (op == OSlt || op == OSle) && !noWrapFold {
 		zero := mkConst(w, 0)
 		if a.op == OAdd && addNoWrap(a.a[0], a.a[1], w) {
 			if a.a[0] == b {
